@@ -224,10 +224,41 @@ def requestHierarchyChange (t : Tree) (fuel : Nat) (change : Change) (win : Id) 
     let later := t.root.needsLater || first
     pure { t with root := { t.root with changes := t.root.changes ++ [⟨change, p, win⟩], needsLater := later } }
 
-/-- `_purge_hierarchy_changes`. -/
+/-- Is `w` the window `anc` or a window below it (walking `parent`)? -/
+def isWithin (t : Tree) : Nat → Id → Id → Bool
+  | 0, _, _ => false
+  | fuel + 1, anc, w =>
+    if w = anc then true
+    else match t.wins[w]? with
+      | some ww => match ww.parent with
+        | some p => isWithin t fuel anc p
+        | none => false
+      | none => false
+
+/-- The top of the parent chain of a window. -/
+def topOf (t : Tree) : Nat → Id → Res Id
+  | 0, _ => .ub "parent chain too long"
+  | fuel + 1, id => do
+    let w ← get t id
+    match w.parent with
+    | none => pure id
+    | some p => topOf t fuel p
+
+/-- `_purge_hierarchy_changes` (after the `fix:` commit): drops every queued request naming `win` or a
+    window below it; does nothing when the parent chain does not end in a root window. -/
 def purgeHierarchyChanges (t : Tree) (fuel : Nat) (win : Id) : Res Tree := do
-  let _ ← getRoot t fuel win
-  pure { t with root := { t.root with changes := t.root.changes.filter (fun r => r.parent ≠ win ∧ r.win ≠ win) } }
+  let top ← topOf t fuel win
+  let tw ← get t top
+  if !tw.isRoot then pure t
+  else
+    -- the walk `for(w = req->win; w; w = w->parent)` dereferences the queued window
+    let rec chk : List Req → Res Unit
+      | [] => pure ()
+      | r :: rs => do
+        let _ ← get t r.win
+        chk rs
+    chk t.root.changes
+    pure { t with root := { t.root with changes := t.root.changes.filter (fun r => !isWithin t fuel win r.win) } }
 
 /-- `tickit_window_new` (flags decoded by the caller): returns the new id. -/
 def newWindow (t : Tree) (fuel : Nat) (parent : Id) (rect : Rect)
@@ -252,7 +283,9 @@ def newWindow (t : Tree) (fuel : Nat) (parent : Id) (rect : Rect)
 def close (t : Tree) (fuel : Nat) (win : Id) : Res Tree := do
   let w ← get t win
   let t ← match w.parent with
-    | some p => doHierarchyChange t fuel .remove p win
+    | some p => do
+      let t ← purgeHierarchyChanges t fuel win
+      doHierarchyChange t fuel .remove p win
     | none => pure t
   modify t win (fun w => { w with isClosed := true })
 
@@ -312,20 +345,19 @@ def destroy (onDestroy : Tree → Id → Res Tree) : Nat → Tree → Id → Res
     let w ← get t win
     let t ← if !w.isClosed then close t (fuel + 1) win else pure t
     let w ← get t win
+    -- root cleanup frees the requests still queued
+    let t := if w.isRoot then { t with root := { t.root with changes := [] } } else t
     pure (set t win { w with freed := true })
 
-/-- The children loop of `tickit_window_destroy`: the write `child->parent = NULL` happens *after* the
-    unref, i.e. into freed memory when that was the child's last reference. -/
+/-- The children loop of `tickit_window_destroy` (after the `fix:` commit):
+    `next = child->next; tickit_window_close(child); tickit_window_unref(child);`. -/
 def destroyChildren (onDestroy : Tree → Id → Res Tree) : Nat → Tree → List Id → Res Tree
   | _, t, [] => pure t
   | 0, _, _ :: _ => .ub "destroy recursion too deep"
   | fuel + 1, t, c :: cs => do
+    let t ← close t (fuel + 1) c
     let t ← unref onDestroy fuel t c
-    match t.wins[c]? with
-    | none => .ub s!"unknown window {c}"
-    | some cw =>
-      if cw.freed then .ub s!"tickit_window_destroy: child->parent = NULL written to freed child {c}"
-      else destroyChildren onDestroy fuel (set t c { cw with parent := none }) cs
+    destroyChildren onDestroy fuel t cs
 end
 
 /-- `tickit_window_ref`. -/
